@@ -340,6 +340,11 @@ func buildIntrinsics() map[string]intrinsicFn {
 		fr.r.stubs[a[0].(string)] = it.v
 		return nil
 	}
+	// verifDaemon(substr): goroutines whose entry function name contains substr may block forever
+	m["verif:verifDaemon"] = func(fr *frame, a []value) value {
+		fr.r.daemons = append(fr.r.daemons, a[0].(string))
+		return nil
+	}
 	m["verif:verifTicks"] = func(fr *frame, a []value) value { return int64(fr.r.ticks) }
 	m["verif:verifReplayFailures"] = func(fr *frame, a []value) value { return []value(nil) }
 
